@@ -74,6 +74,14 @@ CHECKS['C19'] = dict(level='other', engine='gosym', design='4/C19',
    technique='bounded symbolic execution of Position.Advance and of the lexer on token-trivia-token strings (go/ssa, symbolic regex matching), z3',
    text='PARTIAL: (a) Position.Advance for every ASCII string up to 3 bytes (4 thorough) and every split point: byte index, line count and split-independence of the column; (b) the real lexer on tok1 . whitespace . tok2 for 6 token pairs and every whitespace string of length <= 2 (3 thorough): same tokens as with one space, second token starts where the trivia ends.',
    note=_GO_NOTE + ' NOT covered: comments as trivia, doc-comment attachment in the parser, acceptance and output of whole reformatted programs, diagnostics locations beyond the lexer.')
+CHECKS['C06'] = dict(level='other', engine='gosym', design='4/C06',
+   technique='symbolic execution of the mutability decision kernel (go/ssa) over symbolically chosen place expressions and root symbols',
+   text='PARTIAL (kernel): checkMutability + reportMutabilityError executed from SSA on place expressions of depth <= 2 (identifier, parenthesis, field, index) whose root symbol has symbolic kind, read-only flag and reference type: constant, read-only and &T roots must be refused with an error whatever the path; mutable variables must not.',
+   note=_GO_NOTE + ' NOT decided: that every mutation form and syntactic context reaches the kernel, and that loop-index / catch variables are flagged read-only by the collector and type checker.')
+CHECKS['C07'] = dict(level='other', engine='gosym', design='4/C07',
+   technique='symbolic execution of the borrow checker loan table and place-overlap relation (go/ssa) over all short event histories against a reference model',
+   text='PARTIAL (kernels): pathsOverlap/pathsEqual vs the prefix relation; the loan table (addBorrow, bindRefFromIdent, releaseBinding, checkAccess, findBorrow, removeBorrowEntry) driven through every history borrow / copy-or-borrow / release / access over 4 places and 2 references (2880 histories, events symbolic): an error is reported exactly when a conflicting loan is live in the reference aliasing-xor-mutation model.',
+   note=_GO_NOTE + ' NOT decided: last-use computation and scope exit over real bodies, checkReturnLifetime, reference write-through in generated code (a few templates in C01).')
 NA_DEFAULT = 'check not built yet (work in progress, see DESIGN.md section 11)'
 NA = {}
 
